@@ -318,7 +318,7 @@ Section Binder.
   Qed.
 
   Lemma tb_mon_step s a cq : tb_rel s a ->
-    exists a', tb_mon c a (model_ev (tb_step c) (tb_answer c) s cq) = Some a'
+    exists a', mon_of (spec_unit (tb_spec c)) tb_chk tb_cross a (model_ev (tb_step c) (tb_answer c) s cq) = Some a'
                /\ tb_rel (step_state (tb_step c) s (fst cq)) a'.
   Proof.
     apply (@unit_mon_step _ _ _ _ _ (tb_step c) (tb_answer c) (tb_spec c) tb_chk tb_cross tb_rel).
